@@ -26,6 +26,7 @@ class Builder:
         self.ncs = {}
         self.inst_objs = {}  # (midx, iname) -> instance object
         self.mutate = mutate  # optional hook(builder, midx, phase, ctx)
+        self.conn_mismatches = []
 
     # -- leaves --------------------------------------------------------------
     def tagparams(self):
@@ -207,7 +208,31 @@ class Builder:
             self.mutate(self, k, "pre_connect", ctx)
         cstyle = m.get("connstyle", "call")
         n = 0
-        for inst in m["insts"]:
+        if m.get("history") is not None:
+            running = {name: {} for name in insts}
+            for step, (iname, pname, e, op) in enumerate(m["history"]):
+                io = insts[iname]
+                if op == "disconnect":
+                    io.disconnect(pname)
+                    running[iname].pop(pname, None)
+                else:
+                    conn = self.expr(e, ctx, top=(op != "replace"))  # dict shorthand is a connect() feature only
+                    if op == "replace":
+                        io.replace(pname, conn)
+                    elif op == "call":
+                        io(**{pname: conn})
+                    elif op == "setattr" and pname not in KEYWORDS and pname.isidentifier():
+                        setattr(io, pname, conn)
+                    else:
+                        io.connect(pname, conn)
+                    if isinstance(conn, dict):
+                        conn = io.conns.get(pname)  # dict shorthand is converted on the way in
+                    running[iname][pname] = conn
+                got = io.conns
+                if set(got) != set(running[iname]) or any(got[k] is not v for k, v in running[iname].items()):
+                    self.conn_mismatches.append("after step %d (%s %s.%s): conns keys %s, expected %s" % (
+                        step, op, iname, pname, sorted(got), sorted(running[iname])))
+        for inst in (m["insts"] if m.get("history") is None else []):
             io = insts[inst["name"]]
             for pname, e in inst["conns"]:
                 conn = self.expr(e, ctx, top=True, dict_ok=(cstyle != "call_kw"))
